@@ -113,4 +113,16 @@ CHECKS = {
         "note": "Trusted: harness/src/refjson.rs (mapping transcription, DESIGN Appendix B), serde_json as JSON parser for the reference reader.",
         "design_ref": "DESIGN.md §4 C05, Appendix B",
     },
+    "C17": {
+        "technique": "sequential-model monitor of the C API: random call histories over a handle pool, each handle mirrored by a Rust Value; return values, sentinels, error-message protocol and deep equality of all handles checked after every call",
+        "level": "Held on ~1.2e5 (quick) / ~4e6 (thorough) modelled calls covering every extern function and five argument classes. Sampling of histories.",
+        "note": "Trusted: the model applies the public Rust operation named by each C function; the documented sentinels as read from the doc comments.",
+        "design_ref": "DESIGN.md §4 C17",
+    },
+    "C18": {
+        "technique": "sanitizer monitor: the protocol-obeying C API driver under AddressSanitizer+LeakSanitizer (quick and thorough) and Miri (thorough), native abort monitor, exhaustive null sweep of every pointer parameter",
+        "level": "Zero ASan/LSan/Miri reports and no worker death on ~1.6e5 (quick) / ~4e6 (thorough) calls; null sweep complete (92 sites).",
+        "note": "Trusted: ASan/LSan/Miri themselves; that the driver follows the documented ownership protocol.",
+        "design_ref": "DESIGN.md §4 C18",
+    },
 }
